@@ -20,6 +20,16 @@ def nontrivial(req, obs):
     return obs.count("=i") + obs.count("=n") >= 2 and "S[]" not in obs
 
 
+def _res_items(req):
+    f = req.split("\t")
+    out = []
+    for it in (f[4].split(";") if len(f) > 4 and f[4] else []):
+        p = it.split(":")
+        if len(p) >= 7:
+            out.append(p)
+    return out
+
+
 def finding_key(req, obs, detail):
     """(target, failure class, name class): the name class says *why* a name was not kept"""
     f = req.split("\t")
@@ -33,8 +43,27 @@ def finding_key(req, obs, detail):
         name = nm.group(1) if nm else ""
         reserved = _reserved("msl/src/names.rs" if tgt == "msl" else "hlsl/src/names.rs")
         return f"{tgt} {cls} {'reserved-name' if name in reserved else 'other-name'}"
-    if cls in ("unsized-array-unbound", "static-object-bound"):
+    if cls in ("unsized-array-unbound", "static-object-bound", "nested-array-unbound", "struct-resource-unbound",
+               "numthreads-ambiguous"):
         return f"{tgt} {cls}"
+    if cls == "entry-name-ambiguous":
+        # bindings are reported under their leaf name: two declarations in different namespaces whose (generated)
+        # leaf names coincide can not be told apart
+        nm = re.search(r"`([^`]*)`", rest)
+        amb = nm.group(1) if nm else ""
+        res = _res_items(req)
+        same = [p for p in res if p[0] == amb or re.fullmatch(re.escape(p[0]) + r"_\d+", amb)]
+        if len(same) >= 2 and any(len(p) > 7 and "ns" in p[7].split("+") for p in same):
+            return f"{tgt} {cls} same-leaf-name-in-two-namespaces"
+    if cls == "entry-name-ambiguous" and tgt != "msl":
+        # a cbuffer block keeps its source name on HLSL; a global whose name is reserved is renamed `<name>_<n>`:
+        # a cbuffer called exactly that collides with it
+        res = _res_items(req)
+        reserved = _reserved("hlsl/src/names.rs")
+        for p in res:
+            mm = re.match(r"^(.*)_\d+$", p[0])
+            if p[1] == "cbuffer" and mm and any(q[1] != "cbuffer" and q[0] == mm.group(1) and q[0] in reserved for q in res):
+                return f"{tgt} {cls} cbuffer-name-equals-generated-name"
     return f"{tgt} {cls} {req}"
 
 
@@ -42,42 +71,104 @@ def _items(s):
     return s.split(";") if s else []
 
 
-def _drop_index(lst, k):
+def _uses(s):
+    """'3w,4' -> [(3, 'w'), (4, '')]"""
+    out = []
+    for x in (s.split(",") if s else []):
+        if x and not x[-1].isdigit():
+            out.append((int(x[:-1]), x[-1]))
+        else:
+            out.append((int(x), ""))
+    return out
+
+
+def _drop(lst, k, shaped=False):
     """remove index k from a comma separated index list and renumber the larger ones"""
     out = []
-    for x in (lst.split(",") if lst else []):
-        x = int(x)
+    for x, sh in _uses(lst):
         if x == k:
             continue
-        out.append(str(x - 1 if x > k else x))
+        out.append(str(x - 1 if x > k else x) + (sh if shaped else ""))
     return ",".join(out)
+
+
+def _plain(lst):
+    """forget the statement shapes of a use list"""
+    return ",".join(str(x) for x, _ in _uses(lst))
+
+
+def _map_opts(item, n, fn):
+    """apply fn to every option of the optional (n+1)-th ':' field; options for which fn returns None are dropped"""
+    p = item.split(":")
+    if len(p) <= n:
+        return item
+    opts = [o for o in (fn(o) for o in p[n].split("+")) if o]
+    return ":".join(p[:n] + (["+".join(opts)] if opts else []))
 
 
 def shrink(req):
     f = req.split("\t")
     if len(f) != 8:
         return
-    head, (ns, rs, hs, es, ps) = f[:3], f[3:]
-    R, H, E, P = _items(rs), _items(hs), _items(es), _items(ps)
+    head, (gs, rs, hs, es, ps) = f[:3], f[3:]
+    G, R, H, E, P = gs.split(";"), _items(rs), _items(hs), _items(es), _items(ps)
+
+    def emit(G=G, R=R, H=H, E=E, P=P):
+        return "\t".join(head + [";".join(G), ";".join(R), ";".join(H), ";".join(E), ";".join(P)])
+
     # drop a pipeline that is not the named one
     for i in range(len(P)):
         if len(P) > 1 and not (head[2].startswith("name=") and P[i].split(":")[0] == head[2][5:]):
-            yield "\t".join(head + [ns, rs, hs, es, ";".join(P[:i] + P[i + 1:])])
+            yield emit(P=P[:i] + P[i + 1:])
     # drop a resource
     for k in range(len(R)):
-        H2 = [":".join([h.split(":")[0], _drop_index(h.split(":")[1], k)] + h.split(":")[2:]) for h in H]
-        E2 = [":".join(e.split(":")[:2] + [_drop_index(e.split(":")[2], k)] + e.split(":")[3:]) for e in E]
-        yield "\t".join(head + [ns, ";".join(R[:k] + R[k + 1:]), ";".join(H2), ";".join(E2), ps])
-    # drop the last helper (nothing later can call it except entries)
+        def fix(item, pos, opt_letter):
+            p = item.split(":")
+            p[pos] = _drop(p[pos], k, shaped=True)
+            item = ":".join(p)
+            return _map_opts(item, 4 if opt_letter == "d" else 6,
+                             lambda o: ((opt_letter + _drop(o[1:], k)) if _drop(o[1:], k) else None)
+                             if o.startswith(opt_letter) and o[1:2].isdigit() else o)
+        H2 = [fix(h, 1, "d") for h in H]
+        E2 = [":".join(e.split(":")[:2] + [_drop(e.split(":")[2], k, shaped=True)] + e.split(":")[3:]) for e in E]
+        G2 = [g if not g.startswith("I") else "I" + ":".join([_drop(g[1:].split(":")[0], k)] + g[1:].split(":")[1:]) for g in G]
+        yield emit(G=G2, R=R[:k] + R[k + 1:], H=H2, E=E2)
+    # drop the last helper (nothing later can call it except entries and global initialisers)
     if H:
         k = len(H) - 1
-        E2 = [":".join(e.split(":")[:3] + [_drop_index(e.split(":")[3], k)] + e.split(":")[4:]) for e in E]
-        yield "\t".join(head + [ns, rs, ";".join(H[:-1]), ";".join(E2), ps])
+        E2 = [":".join(e.split(":")[:3] + [_drop(e.split(":")[3], k)] + e.split(":")[4:]) for e in E]
+        G2 = [g if not g.startswith("I") else "I" + ":".join([g[1:].split(":")[0], _drop(g[1:].split(":")[1], k)] + g[1:].split(":")[2:]) for g in G]
+        yield emit(G=G2, H=H[:-1], E=E2)
+    # forget the initialised globals
+    if any(g.startswith("I") for g in G):
+        E2 = [_map_opts(e, 6, lambda o: None if o.startswith("i") else o) for e in E]
+        yield emit(G=[g for g in G if not g.startswith("I")], E=E2)
     # forget the statics
-    if ns != "0":
-        H2 = [":".join(h.split(":")[:3] + [""]) for h in H]
-        E2 = [":".join(e.split(":")[:4] + ["", e.split(":")[5]]) for e in E]
-        yield "\t".join(head + ["0", rs, ";".join(H2), ";".join(E2), ps])
+    if G[0] != "0":
+        H2 = [":".join(h.split(":")[:3] + [""] + h.split(":")[4:]) for h in H]
+        E2 = [":".join(e.split(":")[:4] + [""] + e.split(":")[5:]) for e in E]
+        G2 = ["0"] + [g if not g.startswith("I") else ":".join(g.split(":")[:3] + [""]) for g in G[1:]]
+        yield emit(G=G2, H=H2, E=E2)
+    # plain layout
+    if "L1" in G:
+        yield emit(G=[g for g in G if g != "L1"])
+    # strip options / statement shapes of one item at a time
+    for i, r in enumerate(R):
+        if len(r.split(":")) > 7:
+            yield emit(R=R[:i] + [":".join(r.split(":")[:7])] + R[i + 1:])
+    for i, h in enumerate(H):
+        p = h.split(":")
+        plain = ":".join([p[0], _plain(p[1]), p[2], p[3]])
+        if plain != h:
+            yield emit(H=H[:i] + [plain] + H[i + 1:])
+    for i, e in enumerate(E):
+        p = e.split(":")
+        plain = ":".join([p[0], p[1], _plain(p[2])] + p[3:6])
+        if plain != e and not any(g.startswith("I") for g in G):
+            yield emit(E=E[:i] + [plain] + E[i + 1:])
+    for i, pp in enumerate(P):
+        if len(pp.split(":")) > 3:
+            yield emit(P=P[:i] + [":".join(pp.split(":")[:3])] + P[i + 1:])
 
 
 KINDS = ["Buffer", "RWBuffer", "ByteAddressBuffer", "RWByteAddressBuffer", "BufferAddress", "RWBufferAddress",
@@ -88,24 +179,60 @@ KINDS = ["Buffer", "RWBuffer", "ByteAddressBuffer", "RWByteAddressBuffer", "Buff
 
 def search(ctx):
     """small inputs enumerated for the witness search after a broken obligation: every bindable kind alone and
-    next to a second resource, with and without array / explicit group / static sampler / bindless, used directly,
-    through a helper, or not at all, on every target"""
+    next to a second resource, with and without array / explicit group (in each spelling) / static sampler / bindless,
+    used directly, through a helper, through a default argument, through a global initialiser, or not at all, on
+    every target; plus pipeline shapes (stage order, every stage kind with a thread group size, numthreads
+    spellings, layouts)"""
     out = []
     for tgt in ["dx", "vk", "vkba", "msl"]:
         for kind in KINDS:
             for arr in (["-"] if kind in ("cbuffer", "ConstantBuffer") else ["-", "2"]):
                 for group in ["-", "1"]:
-                    flags = [("0", "0")]
+                    flags = [("0", "0", "")]
                     if kind.startswith("Sampler") and arr == "-":
-                        flags.append(("1", "0"))
+                        flags.append(("1", "0", ""))
+                        flags.append(("1", "0", ":sp5"))
                     if arr != "-" and "Address" not in kind:
-                        flags.append(("0", "1"))
-                    for ss, bl in flags:
-                        res = f"g_a:{kind}:{group}:{arr}:{ss}:{bl}:e;g_b:Texture2D:-:-:0:0:e"
+                        flags.append(("0", "1", ""))
+                    if group == "1":
+                        flags.append(("0", "0", ":gr"))
+                        flags.append(("0", "0", ":go+ri3"))
+                        if not kind.startswith("Sampler"):
+                            flags.append(("0", "0", ":gv+vi2"))
+                    if kind == "cbuffer":
+                        flags.append(("0", "0", ":E"))
+                    for ss, bl, opts in flags:
+                        res = f"g_a:{kind}:{group}:{arr}:{ss}:{bl}:e{opts};g_b:Texture2D:-:-:0:0:e"
                         for helpers, entry in [("", "cs_0:Compute:0,1:::8.4.1"), ("h0:0::", "cs_0:Compute:1:0::8.4.1"),
                                                ("", "cs_0:Compute::::8.4.1")]:
                             for mode, pipes in [("name=P0", "P0:-:0"), ("name=P0", "P0:2:0"), ("nopipeline", "P0:-:0")]:
                                 out.append("\t".join(["C05.meta", tgt, mode, "0", res, helpers, entry, pipes]))
+        # resources reached through default arguments / global initialisers only; shapes of the mention
+        for kind in ["cbuffer", "ConstantBuffer", "ByteAddressBuffer", "Texture2D", "StructuredBuffer"]:
+            res = f"g_a:{kind}:-:-:0:0:e;g_b:Texture2D:-:-:0:0:e"
+            out.append("\t".join(["C05.meta", tgt, "name=P0", "0", res, "h0::::d0", "cs_0:Compute::0::8.4.1", "P0:-:0"]))
+            out.append("\t".join(["C05.meta", tgt, "name=P0", "0;I0:::", res, "", "cs_0:Compute:::8.4.1:i0".replace(":::8", "::::8"), "P0:-:0"]))
+            out.append("\t".join(["C05.meta", tgt, "name=P0", "1;I:0::;I::0:0", res, "h0:0:::r", "cs_0:Compute::::8.4.1:i1", "P0:-:0"]))
+        for sh in "iefgwdstcbvamz":
+            out.append("\t".join(["C05.meta", tgt, "name=P0", "0", "g_a:Texture2D:-:-:0:0:e;g_c:cbuffer:-:-:0:0:e", "",
+                                   f"cs_0:Compute:0{sh},1{sh}:::8.4.1", "P0:-:0"]))
+        # declaration shapes the allocator leaves alone
+        for r in ["g_a:Texture2D:-:2x3:0:0:e", "g_a:struct:-:-:0:0:e", "g_a:Texture2D:-:u:0:0:e", "g_a:Texture2D:-:-:0:0:s",
+                  "g_a:Texture2D:-:-:0:0:e:ns", "float16_t:Texture2D:-:-:0:0:e;float16_t_0:cbuffer:-:-:0:0:e",
+                  "g_b:Texture2D:-:-:0:0:e:ns"]:
+            for uses in ["0", ""]:
+                out.append("\t".join(["C05.meta", tgt, "name=P0", "0", r + ";g_b:Texture2D:-:-:0:0:e", "",
+                                       f"cs_0:Compute:{uses}:::8.4.1", "P0:-:0"]))
+        # pipelines: stage order, every stage kind with a size, numthreads spellings, layouts, name selection
+        ents = "vs_0:Vertex:0:::-;ps_1:Pixel:0:::-;ts_2:Task::::32.1.1;ms_3:Mesh:0:::16.2.1;cs_4:Compute:0:::8.4.1"
+        for g in ["0", "0;L1"]:
+            for pipes in ["P0:-:0,1;P1:-:4", "P0:-:1,0;P1:-:4", "P0:-:4;P1:1:1,0:gs3", "P0:-:3,1;P00:-:4", "P0:-:2,3;P1:-:4"]:
+                for mode in ["all", "name=P0", "name=" + pipes.split(";")[1].split(":")[0]]:
+                    out.append("\t".join(["C05.meta", tgt, mode, g, "g_t:Texture2D:-:-:0:0:e", "", ents, pipes]))
+        for e in ["cs_0:Compute:0:::8.4.1:nt1", "cs_0:Compute:0:::8.4.1:nt2", "cs_0:Compute:0:::8.4.1:nt3", "cs_0:Compute:0:::-",
+                  "cs_0:Compute:0:::70000.0.3", "vs_0:Vertex:0:::4.2.1", "cs_0:Compute:0:::8.4.1:fd", "float16_t:Compute:0:::8.4.1"]:
+            out.append("\t".join(["C05.meta", tgt, "name=P0", "0", "g_t:Texture2D:-:-:0:0:e", "", e, "P0:-:0"]))
+        out.append("\t".join(["C05.meta", tgt, "name=P0", "0", "g_t:Texture2D:-:-:0:0:e", "a:0::;a::0:", "a_0:Compute:0:0,1::8.4.1", "P0:-:0"]))
     return out
 
 
@@ -128,15 +255,19 @@ def custom(ctx):
 
 SPEC = {
     "id": "C05",
-    "gens": ["SlotTables", "CompileTables", "MetaTables"],
+    "gens": ["SlotTables", "CompileTables", "MetaTables", "Reserved"],
     "lean_modules": ["RsslVerif.Thm.C05"],
     "theorems": [T + n for n in [
         "source_shape_as_modelled", "descriptor_tables_agree", "register_class_of_descriptor", "msl_entry_names_agree",
         "annot_matches_meta_hlsl", "annot_matches_meta_msl", "non_extern_global_unbound",
         "descriptor_kind_count", "meta_bijective_hlsl", "meta_bijective_msl", "meta_bijective_msl_exact", "msl_sort_keeps_sorted",
-        "excluded_declarations", "used_sound_complete_partial", "used_flag",
+        "excluded_declarations", "used_iff_reachable_of_result", "usage_loop_terminates", "used_sound_complete", "used_flag",
         "hlsl_params_of_targets", "hlsl_annotations_total", "annot_iff_entry", "annotations_match_metadata_hlsl",
-        "entry_named_and_defined"]],
+        "hlsl_metadata_total", "msl_metadata_total_or_refused",
+        "entry_named_and_defined", "thread_group_size_ambiguous_witness", "stage_records_follow_properties",
+        "reported_size_is_the_typers_record", "pipeline_names_distinct", "reported_name_denotes_one_symbol", "hlsl_entry_point_unambiguous",
+        "reported_name_not_reserved", "name_kept_when_unique_and_free", "hlsl_cbuffer_bypasses_name_map_witness",
+        "same_leaf_name_in_two_namespaces_witness"]],
     "harness": "c05",
     "nontrivial": nontrivial,
     "finding_key": finding_key,
@@ -144,49 +275,69 @@ SPEC = {
     "search": search,
     "custom": custom,
     "harness_args": lambda tier, seed: [],
-    "rule": "requests = self-contained shader descriptions (resource globals / cbuffers / static samplers / bindless arrays / "
-            "bind-group attributes, helper call graphs, 0-4 pipelines: compute, vertex+pixel, mesh+pixel, task+mesh; rare "
-            "variants: unsized arrays, static object globals, names reserved in a target, overloaded helpers) rendered to a "
-            "file and compiled by the real compile() x {dx, vk, vk+buffer-address, msl} x {all, one name, no-pipeline}, plus "
-            "a sweep of every reserved name of hlsl/msl names.rs as entry-point and as resource name; the emitted HLSL is "
-            "re-parsed with the real lexer+parser (MSL: text scan) and the property's own oracle compares every metadata "
-            "entry with the annotation / declared type / array length of the declaration of that name, counts entries per "
-            "externally bound declaration, checks inline constant blocks, stage entry functions + thread group sizes, and "
-            "is_used against reachability in the request's own call graph; the Lean model predicts metadata, annotation "
-            "texts, stage records and entry functions; non-trivial = at least two entries and one reported stage",
+    "rule": "requests = self-contained shader descriptions (resource globals / cbuffers incl. empty ones / static samplers with "
+            "property sets / bindless arrays / 2-D arrays / struct globals holding resources / namespaces; bind group written "
+            "as attribute, register space, vk::binding or both; explicit indices; helper call graphs with 14 statement shapes "
+            "around each mention, default arguments and global initialisers that read resources, forward declarations; "
+            "0-4 pipelines: compute, vertex+pixel, mesh+pixel, task+mesh, stage properties in either order, both file "
+            "layouts, numthreads as literals / named constants / arithmetic / two attributes, graphics state property sets; "
+            "rare variants: unsized arrays, static object globals, names reserved in a target, overloaded helpers, name "
+            "clashes, seven front-end error shapes) rendered to a file and compiled by the real compile() x {dx, vk, "
+            "vk+buffer-address, msl} x {all, one name, no-pipeline}, plus a sweep of every reserved name of hlsl/msl names.rs "
+            "as entry-point and as resource name and an enumeration of ~8800 small inputs; the emitted HLSL is re-parsed with "
+            "the real lexer+parser (MSL: text scan) and the property's own oracle compares every metadata entry with the "
+            "annotation / declared type / array length of the declaration of that name, counts entries per externally bound "
+            "declaration, checks inline constant blocks, stage entry functions + the values of their thread group size "
+            "attributes, and is_used against reachability in the request's own use graph; the Lean model predicts metadata, "
+            "annotation texts, stage records, entry functions, emitted names and front-end error classes; non-trivial = at "
+            "least two entries and one reported stage",
     "level_text": "Proof: over the allocator model of C06, the models of both analyse_bindings, of register_binding, of the inline "
                   "constant block, of the Metal used-marking / per-group sort / [[id]] members and of the annotation printers "
                   "are proved, for every declaration list, default group and parameter set: each printed annotation "
                   "(register / vk::binding / vk::offset / id) reads back, character by character, to exactly the bind group, "
                   "slot or inline offset and register class of the declaration's metadata entry (both are projections of one "
                   "api_slot); per bind group the entries are exactly the externally bound declarations, same names, same "
-                  "order (on Metal too: its per-group sort is the identity on the allocator's output, by C06's tiling theorem); annotations and entries line up one to one for "
-                  "modules without static object globals and the printers cannot panic on the allocator's output; descriptor "
-                  "type and count depend only on declared kind and array layer; the usage fixed point equals call-graph "
-                  "reachability, so is_used on Metal holds iff some stage entry point reaches the global (HLSL always reports "
-                  "true); the reported entry point is the emitted function with the reported thread group size on every "
-                  "target, whatever the name generator did (HLSL reports the exporter's generated name); non-extern globals "
-                  "are never bound. Tables, format strings "
-                  "and about 60 syntactic facts are re-extracted from the source on each run; the model is compared with the real "
-                  "compile() output on generated shaders.",
+                  "order (on Metal too: its per-group sort is the identity on the allocator's output, by C06's tiling "
+                  "theorem); annotations and entries line up one to one and the printers cannot panic on the allocator's "
+                  "output; descriptor type and count depend only on declared kind and array layer; non-extern globals are "
+                  "never bound. Used flag (full): the usage fixed point loop terminates (at most n*n modifying passes over n "
+                  "symbols) and equals reachability in the use graph of bodies, default arguments and global initialisers, "
+                  "so is_used on Metal holds iff some stage entry point reaches the global (HLSL always reports true). "
+                  "Stages: an accepted Pipeline block yields one record per stage property in property order, each pointing "
+                  "at the unique function of that name and storing its last numthreads attribute; build_pipeline reports the "
+                  "emitted function with that size on every target and stage kind (= the emitted size whenever the function "
+                  "has one attribute; with two different attributes the negation is proved by witness and recorded as a "
+                  "finding). Names: composed with the C15 model of NameMap::build, two different functions / globals of one "
+                  "scope never share a reported name, no reported name is reserved, and a unique unreserved name is kept "
+                  "(NameKept is now a theorem, not a hypothesis); the two remaining ways two entries can share a name (HLSL "
+                  "cbuffer blocks bypass the map; leaf names across namespaces) are proved as negation witnesses and recorded "
+                  "as findings. Tables, format strings and about 95 syntactic facts are re-extracted from the source on each "
+                  "run; the model is compared with the real compile() output on generated shaders.",
     "trusted_base": [
         "Lean 4.33 kernel; axioms propext / Classical.choice / Quot.sound only (audited by #print axioms)",
         "tools/gens/c05.py (Gen.MetaTables): ObjectType->DescriptorType tables of both exporters, RegisterType letters, "
-        "register/attribute format strings, entry function names, reserved names, and regex facts about the DescriptorBinding "
-        "literals, msl generate_pipeline, the HLSL annotation generators and build_pipeline; Gen.SlotTables, Gen.CompileTables",
-        "hand-written Model/Meta.lean, Model/MetaReach.lean, Model/Slots.lean mirror the Rust functions; tied to the code by the "
-        "correspondence run (model answer == observation of the real compile()) and the regex facts, not by a proof about Rust",
+        "register/attribute format strings, entry function names, reserved names, intrinsic function names, and regex facts about "
+        "the DescriptorBinding literals, msl generate_pipeline, the HLSL annotation generators, build_pipeline, parse_pipeline / "
+        "add_stage, the name lookups of both exporters, simplify_cbuffers and the numthreads printers; Gen.SlotTables, "
+        "Gen.CompileTables, Gen.Reserved",
+        "hand-written Model/Meta.lean, Model/MetaReach.lean, Model/MetaFront.lean, Model/Slots.lean, Model/Names.lean mirror the "
+        "Rust functions; tied to the code by the correspondence run (model answer == observation of the real compile()) and the "
+        "regex facts, not by a proof about Rust",
+        "Driver/C05.lean: how a request becomes the models' inputs (declaration order, registry order of structs / globals / "
+        "functions per target, use graph); checked only by the correspondence run",
         "Spec/Meta.lean: our reader of annotation text, D3D register classes of descriptor types, reachability",
-        "harness oracle tables (which emitted HLSL / MSL type may be reported as which DescriptorType) written independently of "
-        "the compiler's table",
-        "the name generator (NameMap) is not modelled: the emitted name of every function/global is an input of the model "
-        "(requests whose names it changes are answered `unsupported-renamed-*` by the model and judged by the oracle only); C15 owns it",
+        "harness oracle tables (which emitted HLSL / MSL type may be reported as which DescriptorType; static sampler and "
+        "graphics state spellings) written independently of the compiler's tables; evaluator of the emitted numthreads "
+        "expressions (literals, named constants, + - * /, casts)",
     ],
     "assumptions": [
-        "u32 arithmetic is modelled by Nat (C06); array lengths are the evaluated constants the type checker records",
-        "termination of GlobalUsageAnalysis::recurse is assumed in used_sound_complete_partial (fuel not exhausted)",
+        "u32 arithmetic is modelled by Nat (C06); array lengths and numthreads arguments are the evaluated constants the type "
+        "checker records (the model carries values, not expressions)",
+        "sets of the usage analysis are lists read through membership; HashMap iteration order is an arbitrary key list",
         "static sampler parameters, the bindless flag and is_used have no counterpart in the emitted HLSL: they are compared "
         "with the input declaration",
         "no-pipeline mode on Metal emits no argument buffers: entries are compared with the input declarations only",
+        "name uniqueness is per scope of the name map: bindings are reported by leaf name, so two namespaces can still "
+        "contribute one name (recorded finding)",
     ],
 }
